@@ -76,6 +76,11 @@ CATALOGUE = {
     "bool-ndl-accepts-any": (T, "        if self.no_data_loss:\n            # bool can convert all the types", "        if self.no_data_loss and not isinstance(data, str):\n            # bool can convert all the types", ["C12"]),
     "bool-nec-accepts-words": (T, "        if self.no_explicit_cast:\n            raise TypeError\n        if isinstance(data, bytes):\n            data = data.decode()", "        if self.no_explicit_cast and not isinstance(data, str):\n            raise TypeError\n        if isinstance(data, bytes):\n            data = data.decode()", ["C12"]),
     "date-from-datetime-ndl": (T, "            if self.no_data_loss:\n                raise ValueError(f\"Invalid date: {data}, must be date\")\n            return data.date()", "            return data.date()", ["C12"]),
+    "copy-value-shallow": ("utype/utils/functional.py", "        return type(data)([copy_value(d) for d in data])", "        return type(data)(list(data))", ["C19"]),
+    "copy-value-dict-shared": ("utype/utils/functional.py", "        return {k: copy_value(v) for k, v in data.items()}", "        return dict(data)", ["C19"]),
+    "max-errors-one-more": (O, "            and len(self.errors) >= self.options.max_errors", "            and len(self.errors) > self.options.max_errors", ["C10"]),
+    "collect-swallows-exceed": (B, "        if context.options.addition is False:\n            context.handle_error(exc.ExceedError(item=key, value=value))\n            return unprovided", "        if context.options.addition is False:\n            if not context.options.collect_errors:\n                context.handle_error(exc.ExceedError(item=key, value=value))\n            return unprovided", ["C10"]),
+    "depth-counts-routes": (O, "        if route is not None:\n            # index 0 and the key '' are routes too\n            self.routes.append(route)\n        else:\n            self.depth += 1", "        if route is not None:\n            # index 0 and the key '' are routes too\n            self.routes.append(route)\n            if isinstance(route, int) and route > 1:\n                self.depth += 1\n        else:\n            self.depth += 1", ["C18"]),
     "datetime-offset-plus-only": (T, "        if '+' in str(data) or neg_offset:", "        if '+' in str(data):", ["C14"]),
 }
 
